@@ -46,6 +46,7 @@ from ..impl import mx, close_all, quiet, err_kind
 KEY_TWO_FAILED = "C14-failed-dir-save-then-save"
 KEY_LOAD_RENAME = "C14-failed-load-renames-existing"
 KEY_ZIP_TRUNC = "C14-zip-reopen-error-truncates-archive"
+KEY_LOAD_LEAK = "C14-failed-load-leaks-io"
 NSLOTS = 5          # path, _BAK1 .. _BAK4 (the last one must never exist)
 
 _sys = mx.core.mxsys
@@ -145,6 +146,85 @@ def describe(m):
     d["#refs"] = {k: _describe_value(v) for k, v in m.refs.items() if not k.startswith("_")}
     d["#iospecs"] = sorted((type(sp).__name__, sp.path.as_posix()) for sp in m.iospecs)
     return d
+
+
+def _file_backed(v):
+    import types
+    return (isinstance(v, types.ModuleType) or (hasattr(v, "to_dict") and hasattr(v, "index"))
+            or type(v).__name__ == "ExcelRange")
+
+
+def describe_io(m):
+    """what the model keeps in files, reference by reference: `get_spec` of every file-backed value under every
+    name (kind and path), and `iospecs`"""
+    d = {"iospecs": sorted((type(sp).__name__, sp.path.as_posix()) for sp in m.iospecs), "spec_of": {}}
+    named = [("", k, v) for k, v in m.refs.items() if not k.startswith("_")]
+
+    def walk(prefix, s):
+        named.extend((prefix, k, v) for k, v in s.refs.items() if not k.startswith("_"))
+        for n, c in s.named_spaces.items():
+            walk(prefix + "." + n, c)
+    for sn, s in m.spaces.items():
+        walk(sn, s)
+    for sn, k, v in named:
+        if _file_backed(v):
+            try:
+                sp = m.get_spec(v)
+                d["spec_of"]["%s.%s" % (sn, k)] = (type(sp).__name__, sp.path.as_posix())
+            except Exception as e:
+                d["spec_of"]["%s.%s" % (sn, k)] = "ERROR: %s" % e
+    return d
+
+
+def give_io(m, extdir):
+    """an open model that keeps data in files: inside its folder (relative paths) and EXTERNAL ones (absolute
+    paths below `extdir`, private to the model) - pandas csv, a workbook sheet, a module"""
+    import pandas as pd
+    s = m.Mine
+    src = os.path.join(os.path.dirname(extdir), "src")      # (not _sources(): that lands in the current tempdir)
+    if not os.path.isdir(src):
+        os.makedirs(src)
+        for i in (1, 2):
+            with open(os.path.join(src, "helper%d.py" % i), "w") as f:
+                f.write(_MODULE_SRC % i)
+    s.new_pandas("rel", "files/rel.csv", pd.DataFrame({"a": [1, 2]}), file_type="csv")
+    m.new_module("relmod", "lib/relmod.py", os.path.join(src, "helper2.py"))
+    s.new_pandas("ext", os.path.join(extdir, "ext.csv"), pd.DataFrame({"b": [3, 4]}), file_type="csv")
+    m.new_pandas("extbook", os.path.join(extdir, "book.xlsx"), pd.Series([4, 5], name="s"), file_type="excel",
+                 sheet="A")
+    m.new_module("extmod", os.path.join(extdir, "extmod.py"), os.path.join(src, "helper1.py"))
+
+
+def bystander_round_trip(m, desc, desc_io, tmp, fail):
+    """a model that was open during somebody else's load still saves everything it keeps in files (the external
+    files at their absolute paths too) and reads back as it was.  The model is closed before the read (a file
+    under an absolute path is one object per session: C18-absolute-io-shared)."""
+    target = os.path.join(tmp, "bystander_rt")
+    shutil.rmtree(target, ignore_errors=True)
+    want = []
+    for sp in m.iospecs:
+        p = os.fspath(sp.path)
+        want.append(p if os.path.isabs(p) else os.path.join(target, p))
+    for p in want:
+        if os.path.exists(p):
+            os.unlink(p)
+    try:
+        with quiet():
+            m.write(target, backup=False)
+            missing = sorted(os.path.basename(p) for p in want if not os.path.exists(p))
+            m.close()
+            m2 = mx.read_model(target, name="BystanderBack")
+            d2, dio2 = describe(m2), describe_io(m2)
+            m2.close()
+    except Exception as e:
+        fail("does not save and read back: %s" % err_kind(e))
+        return
+    finally:
+        shutil.rmtree(target, ignore_errors=True)
+    if missing:
+        fail("its save did not write the files of its IOSpecs: %s" % missing)
+    if d2 != desc or dio2 != desc_io:
+        fail("reads back different from what it was before the load")
 
 
 def _describe_space(s):
@@ -974,11 +1054,19 @@ def run_load_case(lw, spec, out, stats, lines):
             m1.new_space("Mine").x = 2
             created.append(m1)
             ops.append("newmodel Other")
+        # the models that are open while the load runs keep data in files of their own, inside their folders
+        # and outside (absolute paths): a load - failed or not - is none of their business
+        shutil.rmtree(os.path.join(lw.tmp, "ext"), ignore_errors=True)
+        for j, m_ in enumerate(created):
+            give_io(m_, os.path.join(lw.tmp, "ext", "m%d" % j))
+    bystanders = list(created)
     bad = lw.fresh_copy(fmt)
     if how != "none":
         damage(bad, fmt, how, spec["member"])
     before = [(k, id(v)) for k, v in _sys.models.items()]
     desc_before = [describe(m) for m in created]
+    io_before = [describe_io(m) for m in created]
+    ios_before = {id(io_) for io_ in _sys.iomanager.ios.values()}
     loaded = None
     err = None
     inj = Injector([lw.tmp], fault_at=spec.get("at"), mode="load", label=lw.label,
@@ -1037,9 +1125,39 @@ def run_load_case(lw, spec, out, stats, lines):
         for m, d in zip(created, desc_before):
             if describe(m) != d:
                 out.fail("a failed load changed an existing model", hist)
+        # no residue in the session's registry of file objects: what the load registered is gone again
+        stray = [(g, p) for (g, p), io_ in _sys.iomanager.ios.items() if id(io_) not in ios_before]
+        if stray:
+            # the recorded class: file objects filed under the half-read model, which was closed (relative paths)
+            halfread = all(g is not None and g._impl not in _sys.models.values()
+                           and all(g is not m for m in created) and not p.is_absolute() for g, p in stray)
+            out.fail("a failed load left file objects in the IOManager: %s" % sorted(
+                ("-" if g is None else "half-read model", p.as_posix() if not p.is_absolute() else "<abs>/" + p.name)
+                for g, p in stray), hist, detail={"phase": phase, "error": err},
+                key=KEY_LOAD_LEAK if halfread else None)
+            for key in stray:
+                del _sys.iomanager.ios[key]
     else:
         if describe(loaded) != lw.expected and how == "none":
             out.fail("a load reported success but the model differs from what was saved", hist)
+    # a load, failed or not, leaves what the OTHER open models keep in files alone
+    for j, (m, d, dio) in enumerate(zip(bystanders, desc_before, io_before)):
+        now = describe_io(m)
+        if now != dio or (err is None and describe(m) != d):
+            out.fail("a %s load changed the IOSpecs of another open model" % ("failed" if err else "successful"),
+                     hist, detail={"before": dio, "after": now})
+            break
+        stats["bystanders_with_iospecs"] += 1
+    else:
+        # ... and they still save every file and read back as they were (one of them per case, in turn)
+        if bystanders:
+            j = stats["load_cases"] % len(bystanders)
+            after = [(k, i) for k, i in after if i != id(bystanders[j]._impl)]      # it is closed on the way
+            bystander_round_trip(
+                bystanders[j], desc_before[j], io_before[j], lw.tmp,
+                lambda what: out.fail("after a %s load another open model %s" % (
+                    "failed" if err else "successful", what), hist))
+            stats["bystander_round_trips"] += 1
     # later saves and loads behave normally
     stats["load_cases"] += 1
     if not spec.get("later", True):
